@@ -1,7 +1,9 @@
 ---- MODULE Argv_Trace ----
 (***************************************************************************)
 (* Trace validation for C36.  Record "Bound": the box bounds the driver     *)
-(* was given.  Record "Argv": one URL string through the real url.Parse,    *)
+(* was given.  Record "Argv": one (user, host) pair, either placed in a URL *)
+(* string that goes through the real url.Parse (route "parse") or put       *)
+(* directly into a url.URL message (route "raw"), then the real             *)
 (* EnsureValid and - if accepted - the real SSH / Docker transports; cmds   *)
 (* are the argument vectors observed (the *exec.Cmd the transport returned, *)
 (* and what the recording fake ssh/scp/docker executables were started      *)
@@ -12,11 +14,13 @@ EXTENDS Argv, TraceKit
 
 CONSTANTS Want
 
-VARIABLES l, fails, bound, prev, nssh, ndocker, ncmd, nacc, drift, done
-tvars == <<l, fails, bound, prev, nssh, ndocker, ncmd, nacc, drift, done>>
+VARIABLES l, fails, bound, prev, nssh, ndocker, ncmd, nacc, maxrank, drift, done
+tvars == <<l, fails, bound, prev, nssh, ndocker, ncmd, nacc, maxrank, drift, done>>
 
-TokOrder == <<"-", "a", "@", ":", "/", "o", "=">>
-NTok == Len(TokOrder)
+\* quick uses the first MinTok tokens, thorough all of them (the count is taken from the records)
+TokOrder == <<"-", "a", "@", "/", " ", "TAB", "LF", "o">>
+MinTok == 7
+RouteRank(x) == IF x = "parse" THEN 1 ELSE IF x = "raw" THEN 2 ELSE 0
 MinSsh == <<1, 3, 3, 1>>
 MinDocker == <<1, 1, 0, 2>>
 Rank(t) == IF \E i \in DOMAIN TokOrder : TokOrder[i] = t THEN CHOOSE i \in DOMAIN TokOrder : TokOrder[i] = t ELSE 0
@@ -27,49 +31,56 @@ RECURSIVE Pow(_, _)
 Pow(b, e) == IF e = 0 THEN 1 ELSE b * Pow(b, e - 1)
 RECURSIVE SumPow(_, _)
 SumPow(b, n) == IF n = 0 THEN 1 ELSE Pow(b, n) + SumPow(b, n - 1)
-NU(a) == SumPow(NTok, a)
-NH(a) == SumPow(NTok, a) - 1
-BoxCount(b) == NU(b[1]) * NH(b[2]) + NU(b[3]) * NH(b[4]) - NU(Min(b[1], b[3])) * NH(Min(b[2], b[4]))
+NU(nt, a) == SumPow(nt, a)
+NH(nt, a) == SumPow(nt, a) - 1
+BoxCount(nt, b) == NU(nt, b[1]) * NH(nt, b[2]) + NU(nt, b[3]) * NH(nt, b[4]) - NU(nt, Min(b[1], b[3])) * NH(nt, Min(b[2], b[4]))
+MaxRankOf(ts) == IF ts = <<>> THEN 0 ELSE CHOOSE m \in {Rank(ts[i]) : i \in DOMAIN ts} : \A i \in DOMAIN ts : Rank(ts[i]) <= m
+Max(a, b) == IF a > b THEN a ELSE b
 
 SeqLess(a, b) == IF Len(a) # Len(b) THEN Len(a) < Len(b)
                  ELSE \E d \in DOMAIN a : /\ \A j \in 1..(d - 1) : a[j] = b[j]
                                           /\ Rank(a[d]) < Rank(b[d])
-InLess(x, y) == IF FormRank(x.form) # FormRank(y.form) THEN FormRank(x.form) < FormRank(y.form)
+InLess(x, y) == IF RouteRank(x.route) # RouteRank(y.route) THEN RouteRank(x.route) < RouteRank(y.route)
+                ELSE IF FormRank(x.form) # FormRank(y.form) THEN FormRank(x.form) < FormRank(y.form)
                 ELSE IF x.user # y.user THEN SeqLess(x.user, y.user)
                 ELSE SeqLess(x.host, y.host)
 
 IsDom(in) == in.dom = "box"
-InDomain(in) == /\ FormRank(in.form) > 0
+InDomain(in) == /\ FormRank(in.form) > 0 /\ RouteRank(in.route) > 0
                 /\ \A i \in DOMAIN in.user : Rank(in.user[i]) > 0
                 /\ \A i \in DOMAIN in.host : Rank(in.host[i]) > 0
-                /\ Str(UrlOf(in.form, in.user, in.host)) = in.s
+                /\ in.route = "parse" => Str(UrlOf(in.form, in.user, in.host)) = in.s
                 /\ bound # <<>> => InBox(IF in.form = "ssh" THEN bound[1].ssh ELSE bound[1].docker, in.user, in.host)
 
 CmdWF(c) == /\ {"prog", "via", "argv", "argvc"} \subseteq DOMAIN c
             /\ Len(c.argv) = Len(c.argvc)
             /\ \A j \in DOMAIN c.argv : Str(c.argvc[j]) = c.argv[j]
 WellFormed(r) == /\ {"in", "accepted", "url", "x", "cmds"} \subseteq DOMAIN r
-                 /\ {"dom", "form", "user", "host", "s"} \subseteq DOMAIN r.in
-                 /\ {"cmd", "src", "remote", "home", "local"} \subseteq DOMAIN r.x
+                 /\ {"dom", "route", "form", "user", "host", "s"} \subseteq DOMAIN r.in
+                 /\ {"cmd", "words", "src", "remote", "home", "local"} \subseteq DOMAIN r.x
+                 \* a raw message carries exactly the components of the case
+                 /\ (IsDom(r.in) /\ r.in.route = "raw" /\ r.accepted) => r.url.user = Str(r.in.user) /\ r.url.host = Str(r.in.host)
                  /\ (IsDom(r.in) => InDomain(r.in))
                  /\ \A k \in DOMAIN r.cmds : CmdWF(r.cmds[k])
                  /\ (r.accepted => {"user", "host", "proto"} \subseteq DOMAIN r.url)
 
-XOf(r) == [user |-> r.url.user, host |-> r.url.host, cmd |-> r.x.cmd, src |-> r.x.src, remote |-> r.x.remote,
+XOf(r) == [user |-> r.url.user, host |-> r.url.host, cmd |-> r.x.cmd, words |-> r.x.words, src |-> r.x.src, remote |-> r.x.remote,
            home |-> r.x.home, local |-> r.x.local]
-\* C36 on observations
-C36_Operand(r) == r.accepted => \A k \in DOMAIN r.cmds : CmdOK(r.cmds[k].prog, r.cmds[k].argvc, XOf(r))
+\* C36 on observations: every argument vector that arrived at a program
+C36_Operand(r) == r.accepted => \A k \in DOMAIN r.cmds : CmdOperand(r.cmds[k].prog, r.cmds[k].argvc, XOf(r))
+C36_ComponentIntact(r) == r.accepted => \A k \in DOMAIN r.cmds : CmdIntact(r.cmds[k].prog, r.cmds[k].argvc, XOf(r))
 C36_RejectedBeforeCommand(r) == ~r.accepted => r.cmds = <<>>
 Exercised(r) == (r.accepted /\ r.url.proto \in {"ssh", "docker"}) => r.cmds # <<>>
 
 Conforms(r) ==
-  LET p == Parse(UrlOf(r.in.form, r.in.user, r.in.host), "sync", <<"/", "h">>, <<"/", "w">>, <<>>) IN
+  LET p == Message(r.in.route, r.in.form, r.in.user, r.in.host, <<"/", "h">>, <<"/", "w">>, <<>>) IN
   /\ (p.ok /\ Valid(p.u)) = r.accepted
   /\ r.accepted => Str(p.u.user) = r.url.user /\ Str(p.u.host) = r.url.host /\ p.u.proto = r.url.proto
 
 ArgvFails(i, r) ==
   IF ~WellFormed(r) THEN <<Fail(i, "C36_TraceAccepted")>>
   ELSE Chk(Want, i, "C36_Operand", C36_Operand(r))
+    \o Chk(Want, i, "C36_ComponentIntact", C36_ComponentIntact(r))
     \o Chk(Want, i, "C36_RejectedBeforeCommand", C36_RejectedBeforeCommand(r))
     \o Chk(Want, i, "C36_TraceAccepted", Exercised(r))
     \o (IF IsDom(r.in) /\ prev # <<>> /\ ~InLess(prev[1], r.in) THEN <<Fail(i, "C36_DomainCovered")>> ELSE <<>>)
@@ -77,37 +88,39 @@ ArgvFails(i, r) ==
 BoundOK(r) == /\ {"ssh", "docker"} \subseteq DOMAIN r /\ Len(r.ssh) = 4 /\ Len(r.docker) = 4
               /\ \A k \in 1..4 : r.ssh[k] >= MinSsh[k] /\ r.docker[k] >= MinDocker[k]
 
-TInit == /\ l = 1 /\ fails = <<>> /\ bound = <<>> /\ prev = <<>> /\ nssh = 0 /\ ndocker = 0 /\ ncmd = 0 /\ nacc = 0
+TInit == /\ l = 1 /\ fails = <<>> /\ bound = <<>> /\ prev = <<>> /\ nssh = 0 /\ ndocker = 0 /\ ncmd = 0 /\ nacc = 0 /\ maxrank = 0
          /\ drift = 0 /\ done = FALSE
 Step == /\ l <= NRec
         /\ LET r == Trace[l] IN
            IF r.ev = "Bound" THEN
              /\ bound' = IF BoundOK(r) THEN <<r>> ELSE bound
              /\ fails' = Cap(fails \o (IF BoundOK(r) /\ bound = <<>> THEN <<>> ELSE <<Fail(l, "C36_DomainCovered")>>))
-             /\ UNCHANGED <<prev, nssh, ndocker, ncmd, nacc, drift>>
+             /\ UNCHANGED <<prev, nssh, ndocker, ncmd, nacc, maxrank, drift>>
            ELSE IF r.ev = "Argv" THEN
              LET wf == WellFormed(r)
                  dom == wf /\ IsDom(r.in)
              IN /\ fails' = Cap(fails \o ArgvFails(l, r))
-                /\ prev' = IF dom THEN <<[form |-> r.in.form, user |-> r.in.user, host |-> r.in.host]>> ELSE prev
+                /\ prev' = IF dom THEN <<[route |-> r.in.route, form |-> r.in.form, user |-> r.in.user, host |-> r.in.host]>> ELSE prev
                 /\ nssh' = IF dom /\ r.in.form = "ssh" THEN nssh + 1 ELSE nssh
                 /\ ndocker' = IF dom /\ r.in.form = "docker" THEN ndocker + 1 ELSE ndocker
                 /\ ncmd' = IF wf THEN ncmd + Len(r.cmds) ELSE ncmd
                 /\ nacc' = IF wf /\ r.accepted THEN nacc + 1 ELSE nacc
+                /\ maxrank' = IF dom THEN Max(maxrank, Max(MaxRankOf(r.in.user), MaxRankOf(r.in.host))) ELSE maxrank
                 /\ drift' = IF dom /\ "Conforms" \in Want /\ ~Conforms(r) THEN drift + 1 ELSE drift
                 /\ UNCHANGED bound
            ELSE /\ fails' = Cap(Append(fails, Fail(l, "C36_TraceAccepted")))
-                /\ UNCHANGED <<bound, prev, nssh, ndocker, ncmd, nacc, drift>>
+                /\ UNCHANGED <<bound, prev, nssh, ndocker, ncmd, nacc, maxrank, drift>>
         /\ l' = l + 1 /\ UNCHANGED done
 Covered == nssh + ndocker > 1 => /\ bound # <<>>
-                                 /\ nssh = BoxCount(bound[1].ssh)
-                                 /\ ndocker = BoxCount(bound[1].docker)
+                                 /\ maxrank >= MinTok
+                                 /\ nssh = 2 * BoxCount(maxrank, bound[1].ssh)           \* both routes
+                                 /\ ndocker = 2 * BoxCount(maxrank, bound[1].docker)
 Finish == /\ l = NRec + 1 /\ ~done
           /\ WriteResult(l - 1,
                          Cap(fails \o (IF "C36_DomainCovered" \in Want /\ ~Covered THEN <<Fail(NRec, "C36_DomainCovered")>> ELSE <<>>)),
                          [stat_drift |-> drift, stat_ssh_cases |-> nssh, stat_docker_cases |-> ndocker,
-                          stat_commands |-> ncmd, stat_accepted |-> nacc])
-          /\ done' = TRUE /\ UNCHANGED <<l, fails, bound, prev, nssh, ndocker, ncmd, nacc, drift>>
+                          stat_commands |-> ncmd, stat_accepted |-> nacc, stat_tokens |-> maxrank])
+          /\ done' = TRUE /\ UNCHANGED <<l, fails, bound, prev, nssh, ndocker, ncmd, nacc, maxrank, drift>>
 TNext == Step \/ Finish
 TSpec == TInit /\ [][TNext]_tvars
 ====
